@@ -2217,6 +2217,8 @@ _M = "phyclone/utils/math.py"
 _T = "phyclone/tree/tree.py"
 _IMP_NP_KB = {"file": _KB, "old": "from phyclone.smc.swarm import Particle\n", "new": "import numpy as np\nfrom phyclone.smc.swarm import Particle\n"}
 SELFTEST = [
+    {"name": "benign-R1-seeding-as-a-conditional-expression", "kind": "benign", "file": "phyclone/run.py", "old": "    if seed is not None:\n        rng = np.random.default_rng(seed)\n    else:\n        rng = np.random.default_rng()\n    return rng\n", "new": "    return np.random.default_rng() if seed is None else np.random.default_rng(seed)\n"},
+    {"name": "R1-conditional-expression-seeds-the-wrong-arm", "kind": "break", "rule": "R1", "file": "phyclone/run.py", "old": "    if seed is not None:\n        rng = np.random.default_rng(seed)\n    else:\n        rng = np.random.default_rng()\n    return rng\n", "new": "    return np.random.default_rng() if seed is not None else np.random.default_rng(seed)\n"},
     {"name": "R3q-outliers-query-returns-a-frozenset", "kind": "break", "rule": "R3q", "file": _T, "old": "        return list(self._data[self._OUTLIER_NODE_NAME])\n", "new": "        return frozenset(self._data[self._OUTLIER_NODE_NAME])\n"},
     {"name": "R2-pool-of-four-workers", "kind": "break", "rule": "R2", "file": "phyclone/run.py", "old": "ProcessPoolExecutor(max_workers=num_chains,", "new": "ProcessPoolExecutor(max_workers=min(num_chains, 4),"},
     {"name": "R2-pool-default-size", "kind": "break", "rule": "R2", "file": "phyclone/run.py", "old": "ProcessPoolExecutor(max_workers=num_chains, mp_context", "new": "ProcessPoolExecutor(mp_context"},
